@@ -1,13 +1,16 @@
 -- Root of the CprocVerif library: imports every property file (and through them the models).
+import CprocVerif.Props.C01
+import CprocVerif.Props.C02
+import CprocVerif.Props.C03
+import CprocVerif.Props.C04
+import CprocVerif.Props.C05
+import CprocVerif.Props.C07
+import CprocVerif.Props.C09
+import CprocVerif.Props.C13
+import CprocVerif.Props.C14
 import CprocVerif.Props.C15
 import CprocVerif.Props.C16
-import CprocVerif.Props.C03
-import CprocVerif.Props.C20
 import CprocVerif.Props.C17
-import CprocVerif.Props.C04
+import CprocVerif.Props.C18
 import CprocVerif.Props.C19
 import CprocVerif.Props.C20
-import CprocVerif.Props.C14
-import CprocVerif.Props.C05
-import CprocVerif.Props.C13
-import CprocVerif.Props.C18
